@@ -235,6 +235,35 @@ def union_operand_templates():
     return T
 
 
+def union_call_templates():
+    """a call through a union of function types, or a store through a union of cell types, with a value that only ONE
+    member admits, the OTHER member being the one picked at run time: the admissible argument / content type of a union is
+    the meet of the members' (conjoin), so each of these must be rejected"""
+    T = []
+    F = lambda x: ("f", x)
+    S = lambda x: ("s", x)
+    SA, SB = ("struct", (("a", INT),)), ("struct", (("b", INT),))
+    cases = [
+        (SA, SB, ("struct", [("a", I(1))]), ("struct", [("b", I(2))])), (SA, SB, ("struct", []), ("struct", [("b", I(2))])),
+        (SA, ("struct", (("a", STR),)), ("struct", [("a", I(1))]), ("struct", [("a", S("x"))])),
+        (INT, STR, I(1), S("x")), (arr(INT), arr(STR), ("array", [I(1)]), ("array", [S("x")])),
+        (tup(INT, INT), tup(INT, STR), ("tuple", [I(1), I(2)]), ("tuple", [I(1), S("x")])),
+        (multi(INT, STR), multi(INT, FLOAT), S("x"), F(2.5)), (cell(INT), cell(multi(INT, FLOAT)), ("mut", INT, I(1)), ("mut", multi(INT, FLOAT), F(2.5))),
+        (fn((INT,), INT), fn((STR,), INT), ("fn", [("q", INT)], INT, [("return", V("q"))]), ("fn", [("q", STR)], INT, [("return", I(0))])),
+    ]
+    for A_, B_, xa, xb in cases:
+        fu = multi(fn((A_,), INT), fn((B_,), INT))
+        T.append([("fndecl", "fa", [("s", A_)], INT, [("return", I(1))]),
+                  ("fndecl", "fb", [("s", B_)], INT, [("set", "t", V("s")), ("return", I(2))]),
+                  ("fndecl", "pick", [("c", BOOL)], fu, [("if", V("c"), ("block", [("return", V("fa"))]), None), ("return", V("fb"))]),
+                  ("set", "h", ("call", V("pick"), [("false",)])), ("call", V("h"), [xa])])
+        cu = multi(cell(A_), cell(B_))
+        T.append([("set", "ca", ("mut", A_, xa)), ("set", "cb", ("mut", B_, xb)),
+                  ("fndecl", "pick", [("c", BOOL)], cu, [("if", V("c"), ("block", [("return", V("ca"))]), None), ("return", V("cb"))]),
+                  ("set", "p", ("call", V("pick"), [("false",)])), ("assign", "set", V("p"), xa), ("pre", "deref", V("cb"))])
+    return T
+
+
 def mutants(rnd, progs, per_prog=2):
     out = []
     for p in progs:
